@@ -60,6 +60,18 @@ CHECKS = {
             "decomposition avoiding the path. DAG functions additionally run with 1/2/4/8 threads under a 1e-6 switch interval and are "
             "compared with the single-thread result. Thorough: all digraphs on 3 inner nodes (self-loops) and 4 inner nodes.",
             "X contains only edges of the caller's graph; flow-safety judged against real-weighted decompositions; " + TRUST, "DESIGN.md 4/C06"),
+    "C04": ("exploration", "runtime monitor on MinFlowDecompCycles.solve/get_solution + exact z3 minimum over all Euler walk vectors + metamorphic scale monitor",
+            "MinFlowDecompCycles is run on planted integer walk superpositions (self-loops, nested/touching cycles, parallel SCC exits, several "
+            "sources/sinks, node-weighted with additional starts, subset constraints, ignored elements, all walk-model option sets) and must be "
+            "solved with exactly the z3 minimum over all balanced connected multiplicity vectors with x_e <= f_e (exhaustive for positive integer "
+            "flows; with ignored elements the reference is a bounded witness search and only 'library worse than witness' alarms). Scale clause: "
+            "float runs on f and c*f must agree.",
+            "graphs <= 11 edges, flows <= 6, <= 6000 Euler vectors; a solve that hits the 30 s solver limit yields no verdict; " + TRUST, "DESIGN.md 4/C04"),
+    "C15": ("exploration", "runtime monitor on MinGenSet/MinSetCover solve/get_solution + z3 and brute-force minima",
+            "MinGenSet results are checked for validity (sum, sub-multiset sums within max_multiplicity by enumeration, partition constraints by "
+            "enumeration, type) and minimality (z3 minimum, cross-checked by brute force for small totals); MinSetCover results for coverage and "
+            "minimum weight (brute force over all sub-families), including default weights and zero weights.",
+            "<= 5 distinct numbers <= 40; user-supplied lower bounds above the optimum are skipped; " + TRUST, "DESIGN.md 4/C15"),
 }
 
 NOT_YET = {}
